@@ -1853,7 +1853,15 @@ fn read_cc(cur: &mut SourceCursor, song: &mut Song, ch: char) -> Token {
     if cur.eq_char(',') {
         cur.next(); // skip ','
     }
-    let val_token = read_calc(cur, song).unwrap();
+    let val_token = match read_calc(cur, song) {
+        Some(tok) => tok,
+        None => {
+            // the value is missing: report it instead of panicking
+            let msg = song.get_message(MessageKind::ErrorMissingValue);
+            read_error(cur, song, msg);
+            Token::new_const0()
+        }
+    };
     let cc_token = Token::new_tokens(TokenType::ControlChange, no, vec![val_token]);
     if ch == 'C' {
         cur.skip_space();
